@@ -48,6 +48,36 @@ Proof.
         -- intros E; inversion E; subst; auto.
 Qed.
 
+Lemma skip_comment_split l : forall m l1, skip_comment l = (m, l1) ->
+  l1 = skipn (length m) l /\ (length m + length l1 = length l)%nat
+  /\ match l1 with c :: _ => c = 10 | [] => True end.
+Proof.
+  induction l as [|c r IH]; intros m l1; cbn [skip_comment].
+  - intros E; inversion E; subst; cbn; auto.
+  - destruct (c =? 10) eqn:Ec.
+    + intros E; inversion E; subst; cbn. apply N.eqb_eq in Ec. auto.
+    + destruct (skip_comment r) as [m' r'] eqn:E2. intros E; inversion E; subst.
+      destruct (IH _ _ eq_refl) as (A & B & C). cbn [length skipn]. repeat split; auto; lia.
+Qed.
+
+Lemma skip_gap_split l m l1 : skip_gap l = (m, l1) ->
+  l1 = skipn (length m) l /\ (length m + length l1 = length l)%nat
+  /\ match l1 with c :: _ => is_blank c = false | [] => True end.
+Proof.
+  unfold skip_gap. destruct (skip_blanks l) as [gm l0] eqn:Eg.
+  destruct (skip_blanks_split _ _ _ Eg) as [A B]. pose proof (skip_blanks_head _ _ _ Eg) as Hh.
+  destruct l0 as [|c r].
+  - intros E; inversion E; subst. auto.
+  - destruct (c =? 35).
+    + destruct (skip_comment (c :: r)) as [cm l2] eqn:Ec. intros E; inversion E; subst.
+      destruct (skip_comment_split _ _ _ Ec) as (A2 & B2 & C2).
+      rewrite app_length. repeat split.
+      * rewrite A2, A, skipn_skipn. f_equal; lia.
+      * cbn [length] in *. lia.
+      * destruct l1; auto. subst. reflexivity.
+    + intros E; inversion E; subst. auto.
+Qed.
+
 (* ---------- quotations ---------- *)
 
 Lemma sq_body_split l n r : sq_body l = Some (n, r) -> r = skipn n l /\ (n + length r = length l)%nat /\ (1 <= n)%nat.
@@ -211,11 +241,11 @@ Lemma lex_inv l lx : lex l = inl lx ->
                            /\ lx_lit lx = match w_lit w with Some s => Some (rev s) | None => None end
                            /\ (is_word_kind (lx_kind lx) = true \/ lx_kind lx = TIoNum)) ).
 Proof.
-  unfold lex. destruct (skip_blanks l) as [gm l1] eqn:Eg.
-  destruct (skip_blanks_split _ _ _ Eg) as [A B]. pose proof (skip_blanks_head _ _ _ Eg) as Hh.
+  unfold lex. destruct (skip_gap l) as [gm l1] eqn:Eg.
+  destruct (skip_gap_split _ _ _ Eg) as (A & B & Hh).
   destruct l1 as [|c r].
   - intros E; inversion E; subst; cbn [lx_gap lx_kind lx_tok]. exists []. split; [exact A|]. split; [cbn in *; lia|]. left; auto.
-  - destruct ((c =? 35) || (c =? 126)); [discriminate|].
+  - destruct (c =? 126); [discriminate|].
     destruct (first_op c) as [o|] eqn:Ef.
     + destruct (op_tail 3 o r) as [[o' m] rr] eqn:Eo. intros E; inversion E; subst; cbn [lx_gap lx_kind lx_tok lx_lit].
       exists (c :: r). split; [exact A|]. split; [exact B|]. right; left.
